@@ -4,6 +4,7 @@
 From Coq Require Import ZArith NArith Bool List.
 From PcoreV Require Import Model.Base Model.StringHash Proofs.StringHashProofs.
 From PcoreV Require Model.Coll Proofs.CollProofsKeyed Proofs.CollProofsEq Proofs.CollProofsInv Proofs.CollProofs.
+From PcoreV Require Model.Keys Model.CollKey Proofs.CollKeyProofs.
 Import ListNotations.
 
 (* The mutable string-keyed hash (model of hash/stringhash.go, with its index map explicit) behaves,
@@ -324,4 +325,52 @@ Example C09_coll_nonvacuous :
    RVal (PArr [s 98]); RVal (PInt 9); RVal (PBool false);
    RVal (PArr [PArr [s 98]; s 100; s 101]); RVal (PInt 3)].
 Proof. vm_compute. auto. Qed.
+
+(* The hash key.  Model/Coll.v takes the key equality of every operation (Merge, Get, IncludesKey, Delete, DeleteAll,
+   HashFromArray, Unique) to be Equals: keq = veq.  Model/CollKey.v gives the key itself - tokey p = the bytes px.ToKey
+   writes (Hash.ToKey: every entry rendered into its own buffer, the rendered strings sorted), through the model of
+   the ToKey methods of Model/Keys.v - and these theorems show that on the well-formed values, within the ranges of
+   the Go representation (in_range: int64, string lengths), two values have the same key bytes exactly when they
+   are Equal: whatever the order of the entries of the hashes inside them, and although 1 and '1', true and 'true',
+   undef and 'undef' print alike.  `tokey` is compared with the bytes of px.ToKey on every run (cases_key). *)
+Import CollKey CollKeyProofs.
+Theorem C09_hash_key_equality_is_equals : forall a b,
+  wf_pv a = true -> wf_pv b = true -> in_range a = true -> in_range b = true ->
+  (tokey a = tokey b <-> keq a b = true).
+Proof. exact tokey_iff_keq. Qed.
+Print Assumptions C09_hash_key_equality_is_equals.
+
+Theorem C09_same_key_bytes_decide_key_equality : forall a b,
+  wf_pv a = true -> wf_pv b = true -> in_range a = true -> in_range b = true -> key_eqb a b = keq a b.
+Proof. exact key_eqb_is_keq. Qed.
+Print Assumptions C09_same_key_bytes_decide_key_equality.
+
+(* the order of the entries of a hash (at any depth: heq compares keys and values by Equals) does not matter for its key *)
+Theorem C09_hash_key_ignores_entry_order : forall ea eb,
+  wf_pv (PHash ea) = true -> wf_pv (PHash eb) = true -> in_range (PHash ea) = true -> in_range (PHash eb) = true ->
+  heq ea eb = true -> tokey (PHash ea) = tokey (PHash eb).
+Proof. exact tokey_hash_order. Qed.
+Print Assumptions C09_hash_key_ignores_entry_order.
+
+(* Equals of this model is Equals of the model of property C07 on the embedded values, which are well-formed and
+   clean there (so every theorem of Properties/C07.v applies to the values of this universe) *)
+Theorem C09_equals_is_the_equals_of_the_key_model : forall a b,
+  wf_pv a = true -> wf_pv b = true -> in_range a = true -> in_range b = true ->
+  Keys.veq (emb a) (emb b) = veq a b /\ Keys.wf_value (emb a) = true /\ Keys.clean (emb a) = true.
+Proof. intros a b Wa Wb Ra Rb. split; [exact (emb_veq a b Wa Wb Ra Rb)|exact (emb_good a Wa Ra)]. Qed.
+Print Assumptions C09_equals_is_the_equals_of_the_key_model.
+
+(* Non-vacuity: {1=>'a','1'=>'b'} and {'1'=>'b',1=>'a'} are well-formed, in range, Equal and have the same key;
+   {'1'=>'a',1=>'b'} has another one; 1 and '1' have different keys; as keys of an outer hash the two equal hashes
+   are one key: Merge replaces in place, Get finds, Delete removes. *)
+Definition h1 : pv := PHash [(PInt 1, s 97); (PStr [49%N], s 98)].
+Definition h1r : pv := PHash [(PStr [49%N], s 98); (PInt 1, s 97)].
+Definition h1x : pv := PHash [(PStr [49%N], s 97); (PInt 1, s 98)].
+Example C09_key_nonvacuous :
+  wf_pv h1 = true /\ wf_pv h1r = true /\ in_range h1 = true /\ in_range h1r = true /\
+  keq h1 h1r = true /\ tokey h1 = tokey h1r /\ key_eqb h1 h1x = false /\ key_eqb (PInt 1) (PStr [49%N]) = false /\
+  run [OLit (PHash [(h1, PInt 1)]); OLit (PHash [(h1r, PInt 2)]); OMerge 0 1; OLit h1; OGet 2 3; ODelete 2 3] =
+  [RVal (PHash [(h1, PInt 1)]); RVal (PHash [(h1r, PInt 2)]); RVal (PHash [(h1r, PInt 2)]); RVal h1; RVal (PInt 2);
+   RVal (PHash [])].
+Proof. vm_compute. repeat split; reflexivity. Qed.
 End CollHalf.
